@@ -3,6 +3,7 @@ package props
 import (
 	"encoding/json"
 	"fmt"
+	"hash/fnv"
 	"io"
 	"net/http"
 	"net/http/httptest"
@@ -102,7 +103,7 @@ func c19Decode(in []string) c19Case {
 }
 
 // c19Security renders a security field; ok=false when the field is absent.
-func c19Security(s string) ([]map[string][]string, bool) {
+func c19Security(s string, scoped map[string]bool) ([]map[string][]string, bool) {
 	if s == "~" {
 		return nil, false
 	}
@@ -116,6 +117,9 @@ func c19Security(s string) ([]map[string][]string, bool) {
 		if alt != "" {
 			for _, k := range strings.Split(alt, "+") {
 				m[k] = []string{}
+				if scoped[k] {
+					m[k] = []string{"read", "write"}
+				}
 			}
 		}
 		out = append(out, m)
@@ -123,10 +127,64 @@ func c19Security(s string) ([]map[string][]string, bool) {
 	return out, true
 }
 
-func c19Swagger(c c19Case) []byte {
+// c19Vary: deterministic choices among EQUIVALENT ways of writing one case down or of driving the API
+// object (see the same device in c17.go): a hash of input fields, re-mixed for every draw. What is
+// chosen here never changes what the analyzer reports about the description nor the set of Register*
+// calls, so the model needs none of it.
+type c19Vary struct{ v uint64 }
+
+func c19NewVary(fields []string) *c19Vary {
+	h := fnv.New64a()
+	h.Write([]byte(strings.Join(fields, " ")))
+	return &c19Vary{v: h.Sum64()}
+}
+
+func (c *c19Vary) pick(n int) int {
+	if c == nil {
+		return 0
+	}
+	c.v += 0x9E3779B97F4A7C15
+	z := c.v
+	z = (z ^ (z >> 30)) * 0xBF58476D1CE4E5B9
+	z = (z ^ (z >> 27)) * 0x94D049BB133111EB
+	z ^= z >> 31
+	return int(z % uint64(n))
+}
+
+// c19Swagger writes the description down. With v == nil in the plainest form (what the generator
+// analyses); otherwise every security definition is of one of the four kinds swagger 2.0 knows (an
+// oauth2 one is then required with scopes), and the document carries what real descriptions carry
+// besides: host, schemes, operation ids, tags, summaries, shared definitions, vendor extensions.
+func c19Swagger(c c19Case, v *c19Vary) []byte {
 	doc := map[string]interface{}{
 		"swagger": "2.0",
 		"info":    map[string]interface{}{"title": "t", "version": "1"},
+	}
+	scoped := map[string]bool{}
+	kinds := map[string]interface{}{}
+	for _, d := range c.defs {
+		switch v.pick(4) {
+		case 0:
+			kinds[d] = map[string]interface{}{"type": "apiKey", "in": "header", "name": "X-Key"}
+		case 1:
+			kinds[d] = map[string]interface{}{"type": "apiKey", "in": "query", "name": "api_key"}
+		case 2:
+			kinds[d] = map[string]interface{}{"type": "basic"}
+		default:
+			kinds[d] = map[string]interface{}{"type": "oauth2", "flow": "accessCode",
+				"authorizationUrl": "https://auth.test/authorize", "tokenUrl": "https://auth.test/token",
+				"scopes": map[string]interface{}{"read": "read things", "write": "write things"}}
+			scoped[d] = true
+		}
+	}
+	noisy := v.pick(2) == 1
+	if noisy {
+		doc["host"] = "api.test"
+		doc["schemes"] = []string{"https", "http"}
+		doc["x-verif"] = map[string]interface{}{"consumes": []string{"application/zip"}}
+		doc["tags"] = []interface{}{map[string]interface{}{"name": "pets"}}
+		doc["definitions"] = map[string]interface{}{"Pet": map[string]interface{}{"type": "object"}}
+		doc["responses"] = map[string]interface{}{"gone": map[string]interface{}{"description": "gone"}}
 	}
 	if c.basePath != "" {
 		doc["basePath"] = c.basePath
@@ -137,20 +195,24 @@ func c19Swagger(c c19Case) []byte {
 	if len(c.gprod) > 0 {
 		doc["produces"] = c.gprod
 	}
-	if sec, ok := c19Security(c.gsec); ok {
+	if sec, ok := c19Security(c.gsec, scoped); ok {
 		doc["security"] = sec
 	}
 	if len(c.defs) > 0 {
-		defs := map[string]interface{}{}
-		for _, d := range c.defs {
-			defs[d] = map[string]interface{}{"type": "apiKey", "in": "header", "name": "X-Key"}
-		}
-		doc["securityDefinitions"] = defs
+		doc["securityDefinitions"] = kinds
 	}
 	paths := map[string]map[string]interface{}{}
-	for _, o := range c.ops {
+	for i, o := range c.ops {
 		op := map[string]interface{}{
 			"responses": map[string]interface{}{"200": map[string]interface{}{"description": "ok"}},
+		}
+		if noisy {
+			op["operationId"] = fmt.Sprintf("op%d", i)
+			op["tags"] = []string{"pets"}
+			op["summary"] = "an operation"
+			op["x-verif-produces"] = []string{"application/zip"}
+			op["responses"] = map[string]interface{}{"200": map[string]interface{}{"description": "ok"},
+				"default": map[string]interface{}{"description": "error"}}
 		}
 		if len(o.cons) > 0 {
 			op["consumes"] = o.cons
@@ -158,7 +220,7 @@ func c19Swagger(c c19Case) []byte {
 		if len(o.prod) > 0 {
 			op["produces"] = o.prod
 		}
-		if sec, ok := c19Security(o.sec); ok {
+		if sec, ok := c19Security(o.sec, scoped); ok {
 			op["security"] = sec
 		}
 		if paths[o.path] == nil {
@@ -191,25 +253,67 @@ var c19Producer = runtime.ProducerFunc(func(w io.Writer, _ interface{}) error {
 var c19Auth = runtime.AuthenticatorFunc(func(interface{}) (bool, interface{}, error) { return true, "principal", nil })
 var c19Handler = runtime.OperationHandlerFunc(func(interface{}) (interface{}, error) { return "data", nil })
 
+// the same four as values of struct types (a registration is a key and any implementation of the interface)
+type c19ConsumerT struct{ n int }
+
+func (*c19ConsumerT) Consume(r io.Reader, _ interface{}) error {
+	_, err := io.Copy(io.Discard, r)
+	return err
+}
+
+type c19ProducerT struct{ n int }
+
+func (*c19ProducerT) Produce(w io.Writer, _ interface{}) error {
+	_, err := w.Write([]byte("x"))
+	return err
+}
+
+type c19AuthT struct{ n int }
+
+func (*c19AuthT) Authenticate(interface{}) (bool, interface{}, error) { return true, "principal", nil }
+
+type c19HandlerT struct{ n int }
+
+func (*c19HandlerT) Handle(interface{}) (interface{}, error) { return "data", nil }
+
 // The loaded document is shared by consecutive cases over the same description (loading costs ~7 ms, mostly
 // the swagger meta-schema); nothing the property exercises writes to it.
 var c19LastJSON string
 var c19LastDoc *loads.Document
 
-func c19Build(c c19Case) (*loads.Document, *untyped.API, error) {
-	js := c19Swagger(c)
+func c19Build(c c19Case, in []string) (*loads.Document, *untyped.API, *c19Vary, error) {
+	// how the description is written down depends on the description fields only, so that consecutive
+	// cases over one description still share the loaded document
+	js := c19Swagger(c, c19NewVary(in[1:8]))
+	vary := c19NewVary(in)
 	doc := c19LastDoc
 	if doc == nil || string(js) != c19LastJSON {
 		var err error
 		doc, err = loads.Analyzed(json.RawMessage(js), "")
 		if err != nil {
-			return nil, nil, err
+			return nil, nil, nil, err
 		}
 		c19LastJSON, c19LastDoc = string(js), doc
 	}
 	api := untyped.NewAPI(doc)
-	if !c.jsonDefaults {
+	// the JSON defaults can be switched on and off any number of times; the last call counts
+	switch flips := vary.pick(3); {
+	case c.jsonDefaults && flips == 1:
+		api = api.WithoutJSONDefaults().WithJSONDefaults()
+	case c.jsonDefaults && flips == 2:
+		api = api.WithJSONDefaults()
+	case !c.jsonDefaults && flips == 1:
+		api = api.WithoutJSONDefaults().WithoutJSONDefaults()
+	case !c.jsonDefaults && flips == 2:
+		api = api.WithJSONDefaults().WithoutJSONDefaults()
+	case !c.jsonDefaults:
 		api = api.WithoutJSONDefaults()
+	}
+	// what an API object holds besides the four kinds of registrations is none of Validate's business
+	if vary.pick(2) == 0 {
+		api.RegisterAuthorizer(runtime.AuthorizerFunc(func(*http.Request, interface{}) error { return nil }))
+		api.Models["Pet"] = func() interface{} { return new(map[string]interface{}) }
+		_ = api.Formats()
 	}
 	// An API object is validated whenever its owner likes, also between registrations: on every other case
 	// the registrations the description asks for are made first and the API is validated (result
@@ -229,37 +333,76 @@ func c19Build(c c19Case) (*loads.Document, *untyped.API, error) {
 		need["o:"+x] = true
 	}
 	twoPhase := (len(c.rc)+len(c.rp)+len(c.ra)+len(c.ro))%2 == 1
+	// the four kinds of Register* calls come in any order of kinds (within a kind: the order of the case)
+	order := [][4]int{{0, 1, 2, 3}, {3, 2, 1, 0}, {2, 0, 3, 1}, {1, 3, 0, 2}, {3, 0, 1, 2}, {0, 2, 1, 3}}[vary.pick(6)]
+	nth := 0
 	for phase := 0; phase < 2; phase++ {
 		now := func(key string) bool { return !twoPhase && phase == 0 || twoPhase && need[key] == (phase == 0) }
-		for _, mt := range c.rc {
-			if now("c:" + mt) {
-				api.RegisterConsumer(mt, c19Consumer)
-			}
-		}
-		for _, mt := range c.rp {
-			if now("p:" + mt) {
-				api.RegisterProducer(mt, c19Producer)
-			}
-		}
-		for _, s := range c.ra {
-			if now("a:" + s) {
-				api.RegisterAuth(s, c19Auth)
-			}
-		}
-		for _, o := range c.ro {
-			p := strings.SplitN(o, "|", 2)
-			if len(p) < 2 {
-				p = append(p, "")
-			}
-			if now("o:" + strings.ToUpper(p[0]) + " " + p[1]) {
-				api.RegisterOperation(p[0], p[1], c19Handler)
+		for _, kind := range order {
+			switch kind {
+			case 0:
+				for _, mt := range c.rc {
+					if now("c:" + mt) {
+						nth++
+						if vary.pick(2) == 0 {
+							api.RegisterConsumer(mt, &c19ConsumerT{nth})
+						} else {
+							api.RegisterConsumer(mt, c19Consumer)
+						}
+					}
+				}
+			case 1:
+				for _, mt := range c.rp {
+					if now("p:" + mt) {
+						nth++
+						if vary.pick(2) == 0 {
+							api.RegisterProducer(mt, &c19ProducerT{nth})
+						} else {
+							api.RegisterProducer(mt, c19Producer)
+						}
+					}
+				}
+			case 2:
+				for _, s := range c.ra {
+					if now("a:" + s) {
+						nth++
+						if vary.pick(2) == 0 {
+							api.RegisterAuth(s, &c19AuthT{nth})
+						} else {
+							api.RegisterAuth(s, c19Auth)
+						}
+					}
+				}
+			default:
+				for _, o := range c.ro {
+					p := strings.SplitN(o, "|", 2)
+					if len(p) < 2 {
+						p = append(p, "")
+					}
+					if now("o:" + strings.ToUpper(p[0]) + " " + p[1]) {
+						nth++
+						if vary.pick(2) == 0 {
+							api.RegisterOperation(p[0], p[1], &c19HandlerT{nth})
+						} else {
+							api.RegisterOperation(p[0], p[1], c19Handler)
+						}
+					}
+				}
 			}
 		}
 		if twoPhase && phase == 0 {
 			_ = api.Validate()
 		}
 	}
-	return doc, api, nil
+	// ... also after everything is registered, and also when a handler was built from the API before
+	switch vary.pick(4) {
+	case 0:
+		_ = api.Validate()
+	case 1:
+		_ = middleware.Serve(doc, api)
+		_ = api.Validate()
+	}
+	return doc, api, vary, nil
 }
 
 func c19Facts(doc *loads.Document) []string {
@@ -295,7 +438,7 @@ type c19OpRef struct {
 
 func c19Exec(in []string) []string {
 	c := c19Decode(in)
-	doc, api, err := c19Build(c)
+	doc, api, vary, err := c19Build(c, in)
 	if err != nil {
 		return []string{"LOADERR"}
 	}
@@ -345,7 +488,27 @@ func c19Exec(in []string) []string {
 			apierrors.ServeError(rw, r, err)
 		}
 		ctx := middleware.NewContext(doc, api, nil)
-		h := ctx.APIHandler(nil)
+		// every way the library offers to turn a context (or the API itself) into a handler serves the
+		// operations alike (the documentation middlewares in front only answer their own paths: C20)
+		var h http.Handler
+		switch vary.pick(6) {
+		case 0:
+			h = ctx.RoutesHandler(nil)
+		case 1:
+			h = ctx.APIHandlerSwaggerUI(middleware.PassthroughBuilder)
+		case 2:
+			h = ctx.APIHandlerRapiDoc(nil)
+		case 3:
+			_ = ctx.RoutesHandler(nil) // (the context's own router, for LookupRoute below)
+			h = middleware.Serve(doc, api)
+		case 4:
+			_ = ctx.RoutesHandler(nil)
+			h = middleware.ServeWithBuilder(doc, api, func(next http.Handler) http.Handler {
+				return http.HandlerFunc(func(w http.ResponseWriter, r *http.Request) { next.ServeHTTP(w, r) })
+			})
+		default:
+			h = ctx.APIHandler(nil)
+		}
 
 		// a well-formed request to the operation: Content-Type among its consumes, Accept among its produces
 		inst := c19Instantiate(ref.path)
@@ -354,10 +517,15 @@ func c19Exec(in []string) []string {
 		if _, err := http.NewRequest(ref.method, target, nil); err != nil {
 			return append(out, "BADREQ") // the harness cannot express a request to this operation
 		}
+		// the body: of declared length, or (a reader net/http cannot size: chunked) of unknown length
+		sized := vary.pick(2) == 0
 		mk := func() *http.Request {
 			var body io.Reader
 			if len(consFor) > 0 {
 				body = strings.NewReader("x")
+				if !sized {
+					body = struct{ io.Reader }{body}
+				}
 			}
 			r := httptest.NewRequest(ref.method, target, body)
 			if len(consFor) > 0 {
@@ -369,6 +537,19 @@ func c19Exec(in []string) []string {
 			return r
 		}
 
+		// not the first request this handler sees: one case in three serves another declared operation
+		// (or the same one) and an undeclared path before
+		if vary.pick(3) == 0 {
+			var discard []string
+			other := refs[vary.pick(len(refs))]
+			wt := (&url.URL{Path: fpath.Join("/", doc.BasePath(), c19Instantiate(other.path))}).String()
+			if _, err := http.NewRequest(other.method, wt, nil); err == nil {
+				saved := served
+				c19Serve(h, httptest.NewRequest(other.method, wt, nil), &discard)
+				c19Serve(h, httptest.NewRequest(http.MethodGet, "/no/such/operation", nil), &discard)
+				served = saved
+			}
+		}
 		// the request-time tables AddRoute built for this operation
 		route, found := ctx.LookupRoute(mk())
 		var ck, pk, at []string
@@ -458,7 +639,9 @@ func c19Serve(h http.Handler, r *http.Request, served *[]string) (class string) 
 // generator
 
 var c19Media = []string{"application/json", "text/plain", "application/xml", "application/x-yaml",
-	"application/octet-stream", "text/csv", "text/html"}
+	"application/octet-stream", "text/csv", "text/html",
+	// more lower-case, parameter-free, wildcard-free ones: a structured-syntax suffix, the form types, an image
+	"application/vnd.api+json", "application/x-www-form-urlencoded", "multipart/form-data", "image/png"}
 var c19OddMedia = []string{"Application/JSON", "text/plain; charset=utf-8", "text/plain;charset=utf-8", "*/*",
 	"text/*", "TEXT/PLAIN", "application/vnd.api+json", "application/json;q=1"}
 var c19Paths = []string{"/pets", "/pets/{id}", "/pets/{id}/tags", "/users", "/users/{name}", "/a/b", "/store/items",
@@ -492,6 +675,9 @@ func c19GenSec(r *proto.Rng, schemes []string, odd bool) string {
 		return r.Pick("~", "", ";") // nothing declared: no named requirement (a dangling one is the odd stream's business)
 	}
 	n := 1 + r.Intn(2)
+	if r.Chance(1, 10) {
+		n = 3 + r.Intn(2)
+	}
 	var sb strings.Builder
 	for i := 0; i < n; i++ {
 		if r.Chance(1, 8) {
@@ -602,7 +788,7 @@ func c19GenDesc(r *proto.Rng, odd bool, tier string) (c c19Case, media func() st
 // c19Exact: the registrations the REAL analyzer requires of the description.
 func c19Exact(c c19Case) (rc, rp, ra, ro []string) {
 	sw := new(spec.Swagger)
-	if err := json.Unmarshal(c19Swagger(c), sw); err != nil {
+	if err := json.Unmarshal(c19Swagger(c, nil), sw); err != nil {
 		return
 	}
 	an := analysis.New(sw)
@@ -629,7 +815,61 @@ func c19Variants(r *proto.Rng, c c19Case, media func() string, odd bool, emit fu
 			xs[i], xs[j] = xs[j], xs[i]
 		}
 	}
+	// nearMiss: a superfluous item that differs from a required one by little (a parameter, a blank, one
+	// character more or less, another method, a trailing slash, another letter case where case counts)
+	nearMiss := func(k int, item string) string {
+		switch k {
+		case 0, 1:
+			switch r.Intn(6) {
+			case 0:
+				return item + "; charset=utf-8"
+			case 1:
+				return " " + item
+			case 2:
+				return item + "x"
+			case 3:
+				return item[:len(item)-1]
+			case 4:
+				return item + ";q=0.5"
+			default:
+				return strings.Replace(item, "/", "/x-", 1)
+			}
+		case 2:
+			switch r.Intn(4) {
+			case 0:
+				return item + "2"
+			case 1:
+				return strings.ToUpper(item)
+			case 2:
+				return item + " "
+			default:
+				return "x" + item
+			}
+		default:
+			p := strings.SplitN(item, "|", 2)
+			if len(p) < 2 {
+				return item + "|"
+			}
+			switch r.Intn(5) {
+			case 0:
+				return r.Pick(c19Methods...) + "|" + p[1]
+			case 1:
+				return p[0] + "|" + p[1] + "/"
+			case 2:
+				return p[0] + "|" + strings.TrimPrefix(p[1], "/")
+			case 3:
+				return p[0] + "|" + strings.ToUpper(p[1])
+			default:
+				return p[0] + "|" + strings.TrimSuffix(p[1], "}")
+			}
+		}
+	}
 	extra := func(k int) string {
+		if base := [][]string{rc0, rp0, ra0, ro0}[k]; len(base) > 0 && r.Chance(1, 3) {
+			if it := base[r.Intn(len(base))]; it != "" {
+				return nearMiss(k, it)
+			}
+		}
 		switch k {
 		case 0, 1:
 			return media()
@@ -699,6 +939,15 @@ func c19Variants(r *proto.Rng, c c19Case, media func() string, odd bool, emit fu
 		l = base()
 		*l[k] = append(*l[k], extra(k))
 		finish(*l[0], *l[1], *l[2], *l[3], false)
+	}
+	// a substitution: one required item left out and a near miss of it registered instead
+	if k := r.Intn(4); len([][]string{rc0, rp0, ra0, ro0}[k]) > 0 {
+		l := base()
+		i := r.Intn(len(*l[k]))
+		if it := (*l[k])[i]; it != "" {
+			(*l[k])[i] = nearMiss(k, it)
+			finish(*l[0], *l[1], *l[2], *l[3], false)
+		}
 	}
 	// duplicates (re-registering replaces the handler), a forgotten category, mixtures
 	l := base()
